@@ -20,10 +20,12 @@ VARIABLES table, case, expected
 vars == <<table, case, expected>>
 
 (* ---- 1. lookup precedence ---- *)
-LookupCases == [key : {"documented", "unknown"}, code : {"absent", "none", "value", "callable"}, env : {"absent", "text"}]
+(* a value supplied as a function: a plain function ("callable"), a bound method, a functools.partial *)
+Funcs == {"callable", "method", "partial"}
+LookupCases == [key : {"documented", "unknown"}, code : {"absent", "none", "value"} \cup Funcs, env : {"absent", "text"}]
 Lookup(c) ==
     IF c.code = "value" THEN "code"
-    ELSE IF c.code = "callable" THEN "code_called"
+    ELSE IF c.code \in Funcs THEN "code_called"
     ELSE IF c.key = "documented" THEN (IF c.env = "text" THEN "env_text" ELSE "default")
     ELSE IF c.env = "text" THEN "env_text" ELSE "absent"
 
@@ -36,11 +38,14 @@ IsPrefix(p, f) == Len(p) <= Len(f) /\ \A i \in 1..Len(p) : p[i] = f[i]
 PathCases == [file : Paths, inc : SUBSET {<<"a">>, <<"b", "a">>}, exc : SUBSET {<<"a", "b">>, <<"b">>},
               root : {<<"a">>, <<"b", "b">>}]
 (* exclusion wins; then include; then the application root *)
+(* the short path: the file name with the matched prefix removed - once, at the front *)
+Rest(p, f) == SubSeq(f, Len(p) + 1, Len(f))
+The(S, f) == CHOOSE p \in S : IsPrefix(p, f)
 IsApp(c) ==
-    IF \E p \in c.exc : IsPrefix(p, c.file) THEN [app |-> FALSE, by |-> "exclude"]
-    ELSE IF \E p \in c.inc : IsPrefix(p, c.file) THEN [app |-> TRUE, by |-> "include"]
-    ELSE IF IsPrefix(c.root, c.file) THEN [app |-> TRUE, by |-> "root"]
-    ELSE [app |-> FALSE, by |-> "none"]
+    IF \E p \in c.exc : IsPrefix(p, c.file) THEN [app |-> FALSE, by |-> "exclude", short |-> Rest(The(c.exc, c.file), c.file)]
+    ELSE IF \E p \in c.inc : IsPrefix(p, c.file) THEN [app |-> TRUE, by |-> "include", short |-> Rest(The(c.inc, c.file), c.file)]
+    ELSE IF IsPrefix(c.root, c.file) THEN [app |-> TRUE, by |-> "root", short |-> Rest(c.root, c.file)]
+    ELSE [app |-> FALSE, by |-> "none", short |-> c.file]
 
 (* ---- 3. the documented settings behave the same from code and from the environment ---- *)
 Settings == {"POLL_TIMER", "SERVICE_SECURE_false", "SERVICE_SECURE_true", "IN_APP_INCLUDE", "IN_APP_EXCLUDE",
@@ -67,7 +72,9 @@ Next == UNCHANGED vars
 Spec == Init /\ [][Next]_vars
 
 (* C19 *)
-CodeWins == table = "lookup" /\ case.code \in {"value", "callable"} => expected.src \in {"code", "code_called"}
+CodeWins == table = "lookup" /\ case.code \in {"value"} \cup Funcs => expected.src \in {"code", "code_called"}
+FunctionsAreCalled == table = "lookup" /\ case.code \in Funcs => expected.src = "code_called"
+ShortIsSuffix == table = "path" => \E p \in Prefixes \cup {<<>>} : p \o expected.short = case.file
 EnvBacksDocumented == (table = "lookup" /\ case.code \in {"absent", "none"} /\ case.env = "text") => expected.src = "env_text"
 AbsentOtherwise == (table = "lookup" /\ case.key = "unknown" /\ case.code \in {"absent", "none"} /\ case.env = "absent")
                       => expected.src = "absent"
